@@ -159,7 +159,15 @@ def run(ctx: Ctx, tier: str) -> Result:
 
     # ---------------- PIPE
     pl = p.func(LOGM + ".LogActionContext.process_log")
-    rets = list(t.nodes_in(pl, ast.Return))
+    rets = sorted(t.nodes_in(pl, ast.Return), key=lambda r_: r_.lineno)
+    if len(rets) > 1:
+        # every message goes through the formatter (which also turns `{{` / `}}` into the single brace): a way out that hands back
+        # the template as it is, for templates that `look` field-less, leaves the escapes in the text
+        early = [r for r in rets[:-1] if paths.conditions(p, r, pl)]
+        for r in early[:1]:
+            res.fail(Finding("C16.PIPE", pl.qname, r, pl.loc(r), "when `%s` the message is handed back without going through the formatter: escaped braces stay doubled in the emitted text "
+                             "(a template with `}}` and no `{` is not field-less text)" % norm(paths.conditions(p, r, pl)[0][0])[:50]))
+        rets = rets[-1:]
     need(len(rets) == 1 and isinstance(rets[0].value, ast.Tuple) and len(rets[0].value.elts) == 3, "process_log: expected `return msg, watches, vars`")
     msg = [x for x in ctx.expand.expand_nodes(rets[0].value.elts[0], pl) if norm(x) != P(pl, 1)]
     need(len(msg) == 1, "process_log: message has %d expansions" % len(msg))
@@ -293,6 +301,16 @@ def run(ctx: Ctx, tier: str) -> Result:
         names = [norm(x) for x in st.targets[0].elts] if isinstance(st, ast.Assign) and isinstance(st.targets[0], ast.Tuple) else []
         need(len(names) == 3, "snapshot action: process_log result is not unpacked into three names")
         ln, wn, vn = names
+        # whether the message is rendered depends on there being a message, on nothing else (not on a logger being configured:
+        # the snapshot records the message and the field results either way)
+        pc_ = [(norm(x), pol) for x, pol in paths.conditions(p, plc[0], sp)]
+        import re as _re16
+        extra_ = [c_ for c_, pol in pc_ if not (pol and _re16.fullmatch(r"[\w.]*log[\w.]* is not None", c_, _re16.I)) and not ((not pol) and _re16.fullmatch(r"[\w.]*log[\w.]* is None", c_, _re16.I))]
+        if extra_:
+            res.fail(Finding("C16.SNAP", sp.qname, plc[0], sp.loc(plc[0]), "the log message of a collecting tracepoint is only rendered when `%s`: otherwise the snapshot goes out without its "
+                             "log message and without the watch results of its fields" % extra_[0][:80]))
+        else:
+            res.ok("C16.SNAP", {"rendered whenever there is a message": [c_ for c_, _ in pc_]})
         arg = expand_through(ctx, plc[0].args[0], sp, sp0, via) if plc[0].args else []
         if arg and "'log_msg'" in arg[0]:
             res.ok("C16.SNAP", {"template": arg[0]})
@@ -350,4 +368,5 @@ def run(ctx: Ctx, tier: str) -> Result:
     borrow(ctx, res, tier, "c13", ("C13.ARGS",), "C16.BUILD", "the text an installed log action emits is the one it was registered with: the action's configuration is the builder's own "
            "mapping, not the dict the program passed (and may change or reuse afterwards)")
     borrow(ctx, res, tier, "c04", ("C04.UNITS", "C04.TABLE"), "C16.ONCE", "one message per *permitted* hit: the limiter that permits is fed and compared in one unit")
+    borrow(ctx, res, tier, "c02", ("C02.SNAP",), "C16.SNAP", "the watch result of a field carries the field's text as its expression and LOG as its source, also when the field fails")
     return res
